@@ -136,11 +136,11 @@ func c07Spaces(quick bool) []struct {
 		}
 	}
 	return []fam{
-		{"2modes-2x2", &c07Space{modeNames: two, perMode: [][]ruleOpt{o2, o2}, nRules: []int{2, 2}}, 0},
-		{"2modes-2x1-multi", &c07Space{modeNames: two, perMode: [][]ruleOpt{o2f, o2f}, nRules: []int{2, 1}}, 400000},
-		{"3modes-multi-1x1x1", &c07Space{modeNames: three, perMode: [][]ruleOpt{c07Options(three, true), c07Options(three, true), o3}, nRules: []int{1, 1, 1}}, 400000},
+		{"2modes-2x2", &c07Space{modeNames: two, perMode: [][]ruleOpt{o2, o2}, nRules: []int{2, 2}}, 200000},
+		{"2modes-2x1-multi", &c07Space{modeNames: two, perMode: [][]ruleOpt{o2f, o2f}, nRules: []int{2, 1}}, 150000},
+		{"3modes-multi-1x1x1", &c07Space{modeNames: three, perMode: [][]ruleOpt{c07Options(three, true), c07Options(three, true), o3}, nRules: []int{1, 1, 1}}, 150000},
 		{"3modes-1x1x1", &c07Space{modeNames: three, perMode: [][]ruleOpt{o3, o3, o3}, nRules: []int{1, 1, 1}}, 0},
-		{"3modes-2x1x1", &c07Space{modeNames: three, perMode: [][]ruleOpt{o3, o3, o3}, nRules: []int{2, 1, 1}}, 600000},
+		{"3modes-2x1x1", &c07Space{modeNames: three, perMode: [][]ruleOpt{o3, o3, o3}, nRules: []int{2, 1, 1}}, 150000},
 	}
 }
 
